@@ -114,7 +114,7 @@ func init() {
 	lib.Register(&lib.Check{
 		ID:    "C16",
 		Level: "model_checking",
-		Rule: "crolt (Bolt-backed) part: explicit-state BFS (depth 6 quick / 8 thorough, state = both buckets of both partitions + clock + per-job life-cycle bits) over {POST add of one-shot and recurring jobs through AddHandler, POST rem through DeleteHandler, DeleteAccount, one work() pass per partition, clock += 500ms/1s/TTL, close-and-reopen the Bolt file, Add interrupted between its existence check and its write by a second client's Add/Delete/DeleteAccount/work} on the real crolt Cron over a real Bolt file, virtual clock, recording HTTP RoundTripper; invariants after every operation: job table and time index agree key for key, one time key per job, no firing before the instant in the time key, none for a deleted job, at most one per pass, a one-shot at most once",
+		Rule:  "crolt (Bolt-backed) part: explicit-state BFS (depth 6 quick / 8 thorough, state = both buckets of both partitions + clock + per-job life-cycle bits) over {POST add of one-shot and recurring jobs through AddHandler, POST rem through DeleteHandler, DeleteAccount, one work() pass per partition, clock += 500ms/1s/TTL, close-and-reopen the Bolt file, Add interrupted between its existence check and its write by a second client's Add/Delete/DeleteAccount/work} on the real crolt Cron over a real Bolt file, virtual clock, recording HTTP RoundTripper; invariants after every operation: job table and time index agree key for key, one time key per job, no firing before the instant in the time key, none for a deleted job, at most one per pass, a one-shot at most once",
 		Assumptions: []string{
 			"MaxJitter = 0 (jitter is a deliberate random offset); 2 partitions; TTL 3s",
 			"a second client interleaves only at transaction granularity (Bolt serialises transactions); the interruption is delivered at Add's clock reads, all of which lie between its two transactions",
